@@ -91,7 +91,22 @@ func prepareWire(w *runner.Workspace, specs []*spec.Spec, repeatMigrate int) []*
 			return
 		}
 		// migrate (several times, for determinism) and generate
-		for k := 0; k < repeatMigrate; k++ {
+		reps := repeatMigrate
+		if repeatMigrate > 1 {
+			// field accessors of two or more struct types are merged through a
+			// Go map inside migrate: a two-entry map flips its iteration order
+			// in about one process out of eight, so many fresh processes
+			nStruct := 0
+			for _, pr := range p.S.Provs {
+				if pr.Kind == spec.PStruct {
+					nStruct++
+				}
+			}
+			if nStruct >= 2 {
+				reps = 40
+			}
+		}
+		for k := 0; k < reps; k++ {
 			// every run starts from the same directory state (no previous output)
 			out := filepath.Join(p.KDir, "kessoku.go")
 			os.Remove(out)
